@@ -267,6 +267,12 @@ class Term(NamedTuple):
         if isinstance(self.index_, str):
             return f"self['{self.name}', {self.index_}]"
 
+        # Names with a leading underscore need to go by way of the object's
+        # `__dict__`: inside the model class, Python would otherwise mangle the
+        # resulting attribute name (e.g. `self.__x` to `self._Model__x`)
+        if self.name.startswith('_'):
+            return f"self.__dict__['_{self.name}']" + code[len(self.name):]
+
         # Otherwise, access as a regular internal variable
         return 'self._' + code
 
